@@ -460,7 +460,7 @@ func (w *Worker) readerReadString(st *State, set func(Value), r Ptr) {
 			o := st.clone()
 			o.nondets = append(o.nondets, NondetRec{Kind: "chunk", Val: int64(take)})
 			o.stdinPos += take
-			o.heap[r.id] = StructV{mkBV(uint64(take), 64)}
+			o.heap[r.id] = StructV{mkBV(uint64(take), 64), mkBV(0, 64)}
 			of := o.top()
 			of.idx--
 			o.instrs--
@@ -471,7 +471,7 @@ func (w *Worker) readerReadString(st *State, set func(Value), r Ptr) {
 		rem = int64(avail)
 	}
 	lineNo := st.stdinPos - int(rem)
-	st.heap[r.id] = StructV{mkBV(uint64(rem-1), 64)}
+	st.heap[r.id] = StructV{mkBV(uint64(rem-1), 64), mkBV(0, 64)}
 	line := stdinLine(lineNo)
 	if p.lineText != nil {
 		line = p.lineText[lineNo]
@@ -487,15 +487,87 @@ func (w *Worker) readerReadString(st *State, set func(Value), r Ptr) {
 	set(Tuple{strCat(line, strLit("\n")), nilUnion()})
 }
 
+// readerReadLine: (*bufio.Reader).ReadLine over concrete stdin lines, for a process that reads
+// all of stdin through one reader (the REPL; chunking is not observable there). The default
+// buffer holds 4096 bytes: a line is handed out whole when its terminator is found within 4096
+// bytes, otherwise in pieces of 4096 bytes (4095 when the piece would end in '\r') with
+// isPrefix set; a trailing "\r\n" or "\n" is dropped; an unterminated last line comes without an
+// error and the next call reports io.EOF.
+func (w *Worker) readerReadLine(st *State, set func(Value), r Ptr) {
+	p := w.proc(st)
+	obj := st.heap[r.id].(StructV)
+	off64, _ := obj[1].(Term).intVal()
+	off := int(off64)
+	byteSlice := func(b []byte) Value {
+		if len(b) == 0 {
+			return SliceV{id: st.alloc(ArrayV{}), off: 0, n: 0, cap: 0}
+		}
+		elems := make([]Value, len(b))
+		for i := range b {
+			elems[i] = mkBV(uint64(b[i]), 8)
+		}
+		return st.newSlice(elems, len(elems))
+	}
+	for {
+		if st.stdinPos >= p.stdinLines {
+			set(Tuple{SliceV{}, mkBool(false), eofUnion()})
+			return
+		}
+		lineNo := st.stdinPos
+		lt := stdinLine(lineNo)
+		if p.lineText != nil {
+			lt = p.lineText[lineNo]
+		}
+		text, ok := lt.concrete()
+		if !ok {
+			panic(engineErr("ReadLine over a symbolic stdin line"))
+		}
+		rest := []byte(text)[off:]
+		last := lineNo == p.stdinLines-1 && !p.stdinNL
+		if len(rest) >= 4096 {
+			n := 4096
+			if rest[n-1] == '\r' {
+				n--
+			}
+			st.heap[r.id] = StructV{obj[0], mkBV(uint64(off+n), 64)}
+			set(Tuple{byteSlice(rest[:n]), mkBool(true), nilUnion()})
+			return
+		}
+		st.stdinPos++
+		st.heap[r.id] = StructV{obj[0], mkBV(0, 64)}
+		if last && len(rest) == 0 {
+			off = 0
+			continue // nothing left of an unterminated line: end of input
+		}
+		if !last && len(rest) > 0 && rest[len(rest)-1] == '\r' {
+			rest = rest[:len(rest)-1]
+		}
+		set(Tuple{byteSlice(rest), mkBool(false), nilUnion()})
+		return
+	}
+}
+
 // Scanner object (REPL): one line per Scan, false at end of input. The REPL creates a single
 // scanner, so chunking is not observable there.
 func (w *Worker) scannerScan(st *State, set func(Value), r Ptr) {
 	p := w.proc(st)
-	if st.stdinPos >= p.stdinLines {
+	obj := st.heap[r.id].(StructV)
+	if stopped, _ := obj[2].(Term).boolVal(); stopped || st.stdinPos >= p.stdinLines {
 		set(mkBool(false))
 		return
 	}
-	st.heap[r.id] = StructV{mkBV(uint64(st.stdinPos), 64)}
+	// a line that does not fit into the scanner's buffer (default 64 KB) is not delivered:
+	// Scan reports false (ErrTooLong) from then on
+	if p.lineText != nil && st.stdinPos < len(p.lineText) {
+		if text, ok := p.lineText[st.stdinPos].concrete(); ok {
+			if mx, _ := obj[1].(Term).intVal(); int64(len(text)) >= mx {
+				st.heap[r.id] = StructV{obj[0], obj[1], mkBool(true)}
+				set(mkBool(false))
+				return
+			}
+		}
+	}
+	st.heap[r.id] = StructV{mkBV(uint64(st.stdinPos), 64), obj[1], obj[2]}
 	st.stdinPos++
 	set(mkBool(true))
 }
